@@ -18,7 +18,7 @@ Not decided: promptness, TCP behaviour, retry-elsewhere (C06), all cut offsets a
 from ..inline import inline_view
 from ..mir import AnchorLost
 from ..inline import is_new_function
-from ..util import truth_edges, dj_of, closure_family, df_of, fn_short, in_set, backward_slice, switch_on, switch_edges, yields, callers_keys, operand_path, path_last
+from ..util import decided_edges, zero_count_targets, truth_edges, dj_of, closure_family, df_of, fn_short, in_set, backward_slice, switch_on, switch_edges, yields, callers_keys, operand_path, path_last
 
 C = "scylla::network::connection::"
 
@@ -64,7 +64,24 @@ def r2_r5(ctx, facts):
             locs, calls, _ = backward_slice(b, br.args[0])
             if rex[0].dest[0] in locs:
                 prop = True
-        r2.instance("header-error-propagated", prop, "the read_exact result must be propagated with `?`", rex[0].span)
+        if not prop:
+            # explicit form: `if let Err(e) = reader.read_exact(..).await { return Err(..) }`
+            for sw in sorted(b.live_blocks):
+                t = b.term(sw)
+                if t[0] != "switch" or t[1][0] not in ("c", "m"):
+                    continue
+                e = df.expr_of_operand(t[1])
+                if e is None or e[0] != "disc" or not df.disc_ty.get(e[1], "").startswith("core::result::Result<"):
+                    continue
+                if rex[0].dest[0] not in backward_slice(b, t[1])[0]:
+                    continue
+                vals, other = switch_edges(b, sw)
+                err_t = vals.get(1, other if 0 in vals else None)
+                if err_t is not None:
+                    reach = b.reachable_from(err_t)
+                    if set(b.exits) & reach and not any(x in reach for x, _ in ok_sites(b)) and not any(c.bb in reach for c in b.calls_to("AsyncReadExt::read_buf")):
+                        prop = True
+        r2.instance("header-error-propagated", prop, "an error of the header's read_exact must end the frame read with an error (`?` or an explicit early return)", rex[0].span)
     rbs = b.calls_to("AsyncReadExt::read_buf")
     outer = b
     helper_call = None
@@ -85,37 +102,12 @@ def r2_r5(ctx, facts):
     if len(rbs) != 1:
         raise AnchorLost("read_response_frame: expected exactly one read_buf call in the body loop, found %d (the short-read/EOF detection is anchored on it)" % len(rbs))
     rb = rbs[0]
-    # n: the Continue value of the branch on the awaited read_buf result; find a switch comparing it with 0
-    zero_sw = None
-    for bb in b.live_blocks:
-        t = b.term(bb)
-        if t[0] != "switch":
-            continue
-        e = df.expr_of_operand(t[1])
-        cand = None
-        if e[0] == "bin" and e[1] in ("Eq", "Ne") and ("const", 0) in (e[2], e[3]):
-            other = e[2] if e[3] == ("const", 0) else e[3]
-            cand = (bb, e[1], other)
-        elif e[0] == "val" and b.local_ty(e[1][0]) == "usize" and 0 in [int(v) for v, _ in t[2]]:
-            cand = (bb, "direct", e)
-        if cand:
-            # does the compared value derive from the read_buf future?
-            op = t[1]
-            locs, calls, _ = backward_slice(b, op)
-            if rb.dest[0] in locs:
-                zero_sw = cand
-    if zero_sw is None:
+    # n: the Continue value of the branch on the awaited read_buf result; find a branch that separates 0 from every positive count
+    zts = zero_count_targets(b, rb)
+    if not zts:
         r2.fail("zero-read-tested", "the number of bytes returned by read_buf is never compared with 0: EOF would spin or be mistaken for progress", rb.span)
     else:
-        bb, kind, _ = zero_sw
-        t = b.term(bb)
-        edges = {int(v): tg for v, tg in t[2]}
-        if kind == "Eq":
-            zero_tg = t[3] if 0 in edges else edges.get(1)
-        elif kind == "Ne":
-            zero_tg = edges.get(0)
-        else:
-            zero_tg = edges.get(0)
+        bb, zero_tg = zts[0]
         reach = b.reachable_from(zero_tg)
         errs = [x for x in reach if any(s[0] == "A" and s[2][0] == "agg" and s[2][1][0] == "adt" and s[2][1][2] == "ConnectionClosed" for s in b.stmts(x))]
         r2.instance("zero-read-is-error", rb.bb not in reach and not any(x in reach for x, _ in ok_sites(b)),
@@ -271,7 +263,7 @@ def r6(ctx, facts):
                      and any("conns" in _fields(b, a) for a in c.args if a[0] in ("c", "m"))]
         ok_all, n_edges = True, 0
         for c in rem_calls:
-            for sw, ttg, _ff in truth_edges(b, df, ("call", c.bb)):
+            for sw, ttg in decided_edges(b, dj, ("call", c.bb), 1):
                 n_edges += 1
                 if dj.feasible_reach_edge(sw, ttg, removed_nodes=[u.bb for u in us]) & set(b.exits):
                     ok_all = False
